@@ -60,14 +60,6 @@ def wf_clauses(A, tag):
     return {tag + '_prec': prec_ok(A), tag + '_exp': exp_ok(A), tag + '_pos': pos_ok(A), tag + '_neg': neg_ok(A)}
 
 
-def forks(*conds):
-    """proof hint: case split (forks the symbolic path on every condition); True natively"""
-    for c in conds:
-        if c:
-            continue
-    return True
-
-
 # ---------------------------------------------------------------------------
 # grid arithmetic
 
